@@ -111,11 +111,11 @@ CLAIMED = {
    text="Contracts on AbstractJob.requires (recursive, against the spec function `leaves` over arbitrarily nested lists/tuples/sets/Sequences: adds exactly "
         "the leaves except self, or with remove=True removes exactly them and raises KeyError only then), _add_one_requirement, Sequence._flatten (positional "
         "spec with an offset ghost), Sequence.__init__ / append / requires (exact chain edges, required= goes to the first job, scheduler registration), "
-        "PureScheduler.update / add / remove, AbstractJob.__init__ (required=, scheduler=) and PureScheduler.__init__. Three defects found by these contracts were repaired. Random programs against a reference model of the documented "
+        "PureScheduler.update / add / remove, AbstractJob.__init__ (required=, scheduler=), PureScheduler.__init__ and Scheduler.__init__ (**kwds as a symbolic record). Three defects found by these contracts were repaired. Random programs against a reference model of the documented "
         "semantics run alongside (bounded).",
    note="Assumes: argument structures are finitely nested containers of jobs/Sequences/None whose set containers are plain local sets (ghost predicate ARG, "
         "input validity); two lemmas about the recursively defined offset function (monotone, invertible: lemmas/Offsets.lean); termination of the recursion of "
-        "requires() over the nesting is not proved. Scheduler.__init__ (which forwards **kwds to the two constructors above) is covered by the bounded part only.",
+        "requires() over the nesting is not proved.",
    tech=TECH),
  'C20': dict(cat='other', design='6/C20',
    text="Mostly bounded. Under contract: PureScheduler.topological_order (every member yielded exactly once, requirements first), which orders the "
